@@ -32,6 +32,7 @@ func (handlerSelf *HandlerDef) Post(fn func()) {
 	if handlerSelf.isClosed {
 		return
 	}
+	verifPoint("h.post.checked", handlerSelf)
 
 	handlerSelf.ch <- fn
 }
@@ -39,6 +40,7 @@ func (handlerSelf *HandlerDef) Post(fn func()) {
 // Close Close the Handler
 func (handlerSelf *HandlerDef) Close() {
 	handlerSelf.isClosed = true
+	verifPoint("h.close.flagged", handlerSelf)
 
 	close(handlerSelf.ch)
 }
